@@ -4,7 +4,10 @@
 n=${1:-3}
 cd /verif
 : > seeded/ROBUST.txt
-for d in seeded/C*/; do
+# evidence files are rewritten by every run: keep the ones of the unchanged tree
+bk=$(mktemp -d /tmp/evbk.XXXXXX); cp /verif/evidence/*.json $bk/ 2>/dev/null
+trap 'git -C /repo checkout -- . 2>/dev/null; cp $bk/*.json /verif/evidence/ 2>/dev/null; rm -rf $bk' EXIT
+for d in ${ROBUST_DIRS:-seeded/C*/}; do
   name=$(basename $d); p=${name%%-*}
   [ -z "$(git -C /repo status --porcelain)" ] || { echo "/repo not clean" >> seeded/ROBUST.txt; exit 2; }
   git -C /repo apply /verif/seeded/$name/patch.diff || continue
